@@ -722,6 +722,58 @@ theorem C15_move_graceful (l : Link) (chain : List TCfg) (now : Int) (busy : Boo
   · subst hf
     exact ⟨j, Nat.le_refl _, g_sourceMove l j now l' hi hfa⟩
 
+/-- For a stub in service, receiving is what `stageMove` does anyway (nothing else is ready). -/
+theorem recvAlt_sok (l : Link) (i : Nat) (now : Int) (busy : Bool) (s : Stage) (hs : l.stages[i]? = some s) (hsok : SOK s)
+    (l' : Link) (h : recvPart l i s now = some l') : l.stageMove i now busy = some l' := by
+  obtain ⟨r, hq⟩ := stageMove_quiet l i now busy s hs hsok
+  rw [hq]
+  have hw : s.pc.wantsInput = true := by
+    unfold recvPart at h
+    by_cases hc : (s.pc.wantsInput && !(l.detached && i + 1 == l.stages.length)) = true
+    · simp only [Bool.and_eq_true] at hc; exact hc.1
+    · rw [if_neg hc] at h; cases h
+  have hdue : duePart s now = false := by
+    have hq' := hsok.quiet
+    cases hpc : s.pc with
+    | idle c => simp [duePart, hpc, Pc.timer]
+    | idleT d => rw [hpc] at hq'; simp [Quiet] at hq'
+    | _ => rw [hpc] at hw; simp [Pc.wantsInput] at hw
+  rw [hdue]
+  simpa using h
+
+/-- … whichever goroutine moves, whichever case a `select` picks. -/
+theorem C15_anymove_graceful (l : Link) (chain : List TCfg) (now : Int) (busy : Bool) (l' : Link) (j : Nat) (hi : GInv l j)
+    (h : l.AnyMove chain now busy l') : ∃ j', j ≤ j' ∧ GInv l' j' := by
+  rcases h.2 with h' | h' | ⟨i, h'⟩ | ⟨i, h'⟩ | h' | ⟨i, h'⟩ | ⟨i, h'⟩ | h'
+  · rw [ctlMove_none' l chain now hi.noctl] at h'; cases h'
+  · exact ⟨j, Nat.le_refl _, g_sinkMove l j now l' hi h'⟩
+  · exact g_stageMove l j hi i now busy l' h'
+  · exact ⟨j, Nat.le_refl _, g_bufferMove l j i now l' hi h'⟩
+  · exact ⟨j, Nat.le_refl _, g_sourceMove l j now l' hi h'⟩
+  · unfold Link.recvAlt at h'
+    cases hs : l.stages[i]? with
+    | none => rw [hs] at h'; cases h'
+    | some s =>
+      rw [hs] at h'
+      rcases staged_kind hi.staged i s hs with ⟨_, hd⟩ | ⟨_, hk | hc⟩ | ⟨_, hk⟩
+      · unfold recvPart at h'
+        simp [hd.2.1, Pc.wantsInput] at h'
+      · exact g_stageMove l j hi i now busy l' (recvAlt_sok l i now busy s hs hk l' h')
+      · obtain ⟨_, ⟨d, hpc⟩, _, _⟩ := hc
+        unfold recvPart at h'
+        simp [hpc, Pc.wantsInput] at h'
+      · exact g_stageMove l j hi i now busy l' (recvAlt_sok l i now busy s hs hk l' h')
+  · have : l.intrAlt i now = none := by
+      apply intrAlt_none
+      intro s hs
+      rcases staged_kind hi.staged i s hs with ⟨_, hd⟩ | ⟨_, hk | hc⟩ | ⟨_, hk⟩
+      · exact hd.2.2.2
+      · exact hk.intr
+      · exact hc.2.2.2
+      · exact hk.intr
+    rw [this] at h'; cases h'
+  · rw [ctlTakeAlt_none l now hi.noctl] at h'; cases h'
+
 theorem C15_settle_graceful (chain : List TCfg) (now : Int) :
     ∀ (n : Nat) (l : Link) (j : Nat), GInv l j →
       (Link.settle chain now n l).crash = none → ∃ j', j ≤ j' ∧ GInv (Link.settle chain now n l) j' := by
